@@ -133,7 +133,11 @@ def run(model, col, tier):
     col.check(bool(opt) and " ".join(unparse(opt[0]).split()) in ("args.opt_level > 0", "args.opt_level >= 1", "bool(args.opt_level)", "args.opt_level != 0", "0 < args.opt_level"), "R17.2", "nslc.py::optimisation switch", "-O maps to the optimize option", None, "nslc.py", nslc.tree)
     ld = model.cls(IR, "FilesystemModuleLoader").own_method("Load")
     loads = [c for c in ast.walk(ld) if isinstance(c, ast.Call) and dotted(c.func) == "pickle.load"]
-    col.check(len(loads) >= 1 and all(unparse(c.args[0]) == "path.open('rb')" for c in loads), "R17.2", f"{IR}::FilesystemModuleLoader.Load protocol", "pickle.load(path.open('rb'))",
+    def _binary_open(a):
+        return isinstance(a, ast.Call) and last_attr(a) == "open" and isinstance(a.func, ast.Attribute) and isinstance(a.func.value, ast.Name) \
+            and [x.value for x in a.args if isinstance(x, ast.Constant)] == ["rb"] and not a.keywords
+
+    col.check(len(loads) >= 1 and all(len(c.args) == 1 and _binary_open(c.args[0]) for c in loads), "R17.2", f"{IR}::FilesystemModuleLoader.Load protocol", "pickle.load(path.open('rb'))",
               "module files are not read with pickle.load from a binary stream", IR, ld)
     # lookup order: the path as given first, the .nslir sibling only if it does not exist
     # symbolic walk: the path variable is 'given' (Path(moduleName)) or 'suffixed' (.with_suffix('.nslir'));
@@ -180,7 +184,9 @@ def run(model, col, tier):
         pass
     col.check(good, "R17.2", f"{IR}::FilesystemModuleLoader.Load lookup order", "the file named is loaded if it exists; '<name>.nslir' is only the fallback",
               "the loader does not try the given path first: a stale '<name>.nslir' next to the file just written is loaded instead of it", IR, ld)
-    col.check("assert isinstance(module, Module)" in unparse(ld) and [unparse(r.value) for r in ast.walk(ld) if isinstance(r, ast.Return)] == ["module"], "R17.2", f"{IR}::FilesystemModuleLoader.Load result", "returns the loaded Module", None, IR, ld)
+    loaded_names = {n.targets[0].id for n in ast.walk(ld) if isinstance(n, ast.Assign) and isinstance(n.targets[0], ast.Name) and isinstance(n.value, ast.Call) and dotted(n.value.func) == "pickle.load"}
+    rets17 = [unparse(r.value) for r in ast.walk(ld) if isinstance(r, ast.Return) and r.value is not None]
+    col.check(len(loaded_names) == 1 and rets17 and set(rets17) <= loaded_names, "R17.2", f"{IR}::FilesystemModuleLoader.Load result", "returns the loaded Module", None, IR, ld)
     nslr = model.file("nslr.py")
     t = unparse(nslr.tree)
     col.check("loader = LinearIR.FilesystemModuleLoader()" in t and "module = loader.Load(args.MODULE)" in t and "linker.AddModule(module)" in t, "R17.2", "nslr.py::run loads through the module loader",
